@@ -2,7 +2,6 @@ package main
 
 import (
 	"fmt"
-	"go/token"
 	"go/ast"
 	"go/types"
 	"strings"
@@ -358,34 +357,33 @@ func (g *Gen) loopMods(li *loopInfo) (comps []string, ghosts []string) {
 					gs["$stored:"+fn] = true
 				}
 			}
-			if rv, ok := in.(*ssa.UnOp); ok && rv.Op == token.ARROW {
-				name := "$recv"
-				if ld, ok := rv.X.(*ssa.UnOp); ok {
-					if fn, _ := fieldNameOfAddr(ld.X); fn != "" {
-						name = "$recv." + fn
-					}
-				}
+			for _, name := range instrEvents(in) {
 				if g.selectors[name] {
 					gs["$called:"+name] = true
+					gs["$ok:"+name] = true
 					gs["$count:"+name] = true
-				}
-			}
-			if sd, ok := in.(*ssa.Send); ok {
-				if ld, ok := sd.Chan.(*ssa.UnOp); ok {
-					if fn, _ := fieldNameOfAddr(ld.X); fn != "" && g.selectors["$sent:"+fn] {
-						gs["$sent:"+fn] = true
+					for _, sn := range g.sinces {
+						if sn[0] == name || sn[1] == name {
+							gs["$since:"+sn[0]+"|"+sn[1]] = true
+						}
 					}
+				}
+				if fn, ok := strings.CutPrefix(name, "$send."); ok && g.selectors["$sent:"+fn] {
+					gs["$sent:"+fn] = true
 				}
 			}
 			var cc *ssa.CallCommon
+			pfx := ""
 			switch x := in.(type) {
 			case *ssa.Call:
 				cc = &x.Call
 			case *ssa.Go:
 				cc = &x.Call
+				pfx = "go:"
 			}
 			if cc != nil {
 				for _, name := range callNames(cc) {
+					name = pfx + name
 					if g.selectors[name] {
 						gs["$called:"+name] = true
 						gs["$ok:"+name] = true
@@ -439,7 +437,16 @@ func (g *Gen) collectSelectors() {
 			g.selectors[selName(e.Args[0])] = true
 		}
 		if e.Kind == SCall && e.Name == "since" && len(e.Args) == 2 {
-			g.sinces = append(g.sinces, [2]string{selName(e.Args[0]), selName(e.Args[1])})
+			pair := [2]string{selName(e.Args[0]), selName(e.Args[1])}
+			dup := false
+			for _, p := range g.sinces {
+				if p == pair {
+					dup = true
+				}
+			}
+			if !dup {
+				g.sinces = append(g.sinces, pair)
+			}
 			g.selectors[selName(e.Args[0])] = true
 			g.selectors[selName(e.Args[1])] = true
 		}
